@@ -1,7 +1,7 @@
 (* C01 -- pipeline results equal the documented left-to-right semantics.
    GENERATED from Properties/src/C01.props by tools/mkprops.py; property theorems only. *)
 From SP Require Import Model.Impl Model.Spec Model.Typing Model.Template.
-From SP Require Import Proofs.ImplSpec Proofs.TypingP Proofs.ErrP Proofs.TemplateP Proofs.Toy.
+From SP Require Import Proofs.ImplSpec Proofs.TypingP Proofs.ErrP Proofs.TemplateP Proofs.ComposeP Proofs.Toy.
 
 (* Whatever the debug flag, and whatever the regex engine / case mapping / ANSI
    stripper plugged in (subject to the literal law L1, which is what makes the
@@ -80,6 +80,57 @@ Check C01_never_panics :
   forall (E : Env) (ops : list op) (v : value) (sep : str), spec_steps E ops v sep <> Panic.
 Print Assumptions C01_never_panics.
 
+(* a pipeline is its prefix followed by its suffix: the value and the separator
+   after the prefix are all the suffix sees *)
+Theorem C01_left_to_right :
+  forall (E : Env) (a b : list op) (v : value) (sep : str),
+  spec_steps E (a ++ b) v sep = bind (spec_fold E a v sep) (fun r => spec_steps E b (fst r) (snd r)).
+Proof. exact spec_steps_app. Qed.
+Check C01_left_to_right :
+  forall (E : Env) (a b : list op) (v : value) (sep : str),
+  spec_steps E (a ++ b) v sep = bind (spec_fold E a v sep) (fun r => spec_steps E b (fst r) (snd r)).
+Print Assumptions C01_left_to_right.
+
+Theorem C01_one_operation_at_a_time :
+  forall (E : Env) (ops : list op) (o : op) (v : value) (sep : str),
+  spec_fold E (ops ++ [o]) v sep = bind (spec_fold E ops v sep) (fun r => spec_step E o (fst r) (snd r)).
+Proof. exact spec_fold_snoc. Qed.
+Check C01_one_operation_at_a_time :
+  forall (E : Env) (ops : list op) (o : op) (v : value) (sep : str),
+  spec_fold E (ops ++ [o]) v sep = bind (spec_fold E ops v sep) (fun r => spec_step E o (fst r) (snd r)).
+Print Assumptions C01_one_operation_at_a_time.
+
+Theorem C01_result_is_rendered_final_state :
+  forall (E : Env) (ops : list op) (v : value) (sep : str),
+  spec_steps E ops v sep = omap (fun r => render (fst r) (snd r)) (spec_fold E ops v sep).
+Proof. exact spec_steps_is_render_of_fold. Qed.
+Check C01_result_is_rendered_final_state :
+  forall (E : Env) (ops : list op) (v : value) (sep : str),
+  spec_steps E ops v sep = omap (fun r => render (fst r) (snd r)) (spec_fold E ops v sep).
+Print Assumptions C01_result_is_rendered_final_state.
+
+Theorem C01_prefix_error_fails_the_call :
+  forall (E : Env) (a b : list op) (v : value) (sep : str),
+  spec_fold E a v sep = Err -> spec_steps E (a ++ b) v sep = Err.
+Proof. exact prefix_error_fails. Qed.
+Check C01_prefix_error_fails_the_call :
+  forall (E : Env) (a b : list op) (v : value) (sep : str),
+  spec_fold E a v sep = Err -> spec_steps E (a ++ b) v sep = Err.
+Print Assumptions C01_prefix_error_fails_the_call.
+
+(* a prefix that hands on a string (separator untouched) can be run first as a
+   pipeline of its own, and the suffix run on its output *)
+Theorem C01_prefix_then_suffix :
+  forall (E : Env) (a b : list op) (x y : str),
+  spec_fold E a (VStr x) default_sep = Ok (VStr y, default_sep) ->
+  spec_run E a x = Ok y /\ spec_run E (a ++ b) x = spec_run E b y.
+Proof. exact run_prefix_then_suffix. Qed.
+Check C01_prefix_then_suffix :
+  forall (E : Env) (a b : list op) (x y : str),
+  spec_fold E a (VStr x) default_sep = Ok (VStr y, default_sep) ->
+  spec_run E a x = Ok y /\ spec_run E (a ++ b) x = spec_run E b y.
+Print Assumptions C01_prefix_then_suffix.
+
 (* non-vacuity: an 8-operation pipeline with a map body on a non-ASCII,
    multi-line input under a concrete toy engine *)
 Example C01_ex_pipeline :
@@ -96,3 +147,8 @@ Example C01_ex_pipeline :
   /\ spec_run toy_env [Split [44%N] (Range None None false); Upper] [97%N] = Err
   /\ spec_run toy_env [Filter [40%N]] [97%N] = Err.
 Proof. vm_compute. repeat split. Qed.
+
+(* non-vacuity of C01_prefix_then_suffix: a two-operation string prefix *)
+Example C01_ex_prefix :
+  spec_fold toy_env [Upper; Append [33%N]] (VStr [97; 98]%N) default_sep = Ok (VStr [65; 66; 33]%N, default_sep).
+Proof. vm_compute. reflexivity. Qed.
